@@ -1,5 +1,5 @@
 (* C18 - the `trias` output file reproduces the assembled image for the RP2040 loader.
-   Statements only; proofs live in Bin/TriasProofs.v (and Bin/TriasProofs2.v).
+   Statements only; proofs live in Bin/TriasProofs.v .. TriasProofs6.v and Bin/TriasEmit.v.
    Model:  Bin/TriasModel.v  (`post`: the statements of src/bin/assembler.rs after ctx.finalize(): boot-sector checksum,
            page padding loop, UF2 emission; `main_model`: the decision of `main`), built on Mem/MapModel.v, Uf2/CrcModel.v,
            Uf2/WriteModel.v.
@@ -8,53 +8,52 @@
 
    `Rep m`  = C15's representation invariant of the memory map, `abs m` = the address -> byte dictionary it denotes (= P).
    `Bytes m` = every stored value is < 256.
-   NAMED HYPOTHESES (facts about MapModel that C15 states in the header of Properties/C15.v but did not prove; they are
-   Prop parameters of the theorems below, not axioms):
-     Put_spec dbg       := forall m a data, Rep m -> a < U32 -> a + len data <= SPACE ->
-                           exists m' n, map_put dbg m a data = Ok (m', Some n) /\ Rep m' /\ d_put (abs m) a data = (abs m', Some n)
-     IterRange_spec dbg := forall m f l, Rep m -> f <= l -> map_iter_range dbg m f l = Ok (d_iter_range (abs m) f l)
+   The facts about the memory map (put in every arm, iter_range) and about the UF2 writer (whole call sequences) that
+   earlier versions of this file carried as hypotheses are now theorems of C15 (C15_put, C15_iter_range) and C16
+   (the run lemmas of Uf2/WriteRunProofs.v behind C16_blocks / C16_reconstruct); nothing is assumed about them here.
 
-   NOT PROVED (full statements; evaluated on every run of the correspondence stream: the extracted ImageSpec on the real
-   binary's file, and model = binary on every generated layout):
+   ONE size condition remains, inherited from C16: C16 proves its writer free of panics for call sequences with
+   `cost ops <= u32::MAX` (fewer than 2^32 bytes + calls; see the header of Properties/C16.v).  For the calls `post`
+   makes this reads
+     padded_small dbg m := forall m2, padded dbg m = Go m2 -> small m2,   small m2 := |abs m2| + |m2| <= 2^32 - 1
+   (the padded map has fewer than 2^32 bytes + regions).  C18_small derives it from a condition on the program:
+     page0_free P := forall a, a < 256 -> d_get P a = None
+   (the program places nothing in the first 256 addresses - boot ROM on the RP2040).  The theorems about the emitted
+   file are stated under page0_free (C18_image, C18_blocks, C18_no_panic) and, more generally, under padded_small
+   (C18_outcomes, C18_image_small, C18_no_panic_small).  NOT covered by a theorem: programs whose padded image has
+   2^32 - 1 or more bytes + regions (an image filling the whole 4 GiB address space from page 0 on); for them the
+   statement is only exercised by the correspondence stream.
 
-   C18_no_panic : forall dbg m, Rep m -> Bytes m -> Put_spec dbg -> IterRange_spec dbg ->
-       (forall s, post dbg m <> PPanic s) /\ post dbg m <> POutOfFuel.
-     Proved part: C18_no_panic_partial = no Panic outcome of `post` (checksum step: find, the iter_range loop with the
-     slice copy, CRC, put; padding loop: the three assert_eq!(put(..), Ok(n)) hold, &BLANK_PAGE[..n] is in range, no u32
-     arithmetic wraps; emission: new_vec(..).unwrap(), write_all, drop via C16_no_panic), under the extra hypothesis that
-     the padded map is `small` (fewer than 2^32 bytes + regions: C16's sufficient condition for its block counter).
-     Missing: fuel sufficiency of the padding loop (fuel = number of segments + 1; OutOfFuel is excluded from the
-     statement, never observed in the stream) and the derivation of `small` for the padded map from a bound on P.
-
-   C18_image : forall dbg m, Rep m -> Bytes m -> Put_spec dbg -> IterRange_spec dbg -> abs m <> [] ->
-       must_refuse (abs m) = false -> exists file, post dbg m = POk file /\ image_ok (abs m) file = true.
-     (image_ok = blocks_shaped && numbered && pages_distinct && checksum_ok && has_all_bytes P+ && padding_zero P+ &&
-      inside_pages P+; this one statement contains C18_blocks.)
-     Proved part: C18_checksum / C18_checksum_total (the map handed to the padding loop is well formed and denotes P+) and
-     C18_pad_keeps_rep_partial (the padding keeps the map well formed).  Missing: the padding loop's effect on the
-     dictionary (every segment starts on a page boundary, added cells are zero and inside touched pages, no two segments
-     on one page) and C16's unproved C16_reconstruct / C16_blocks for the emission. *)
+   Everything else of the property is proved for the model, in both build profiles (dbg): no theorem is `_partial`.
+   * fuel: the padding loop runs on fuel = number of segments + 1; C18_pad shows that this always suffices (each
+     iteration moves `prev` to the last address of a strictly later segment of the map handed to the loop), so
+     OutOfFuel is not an outcome (C18_pad, C18_outcomes, C18_no_panic).
+   * PFin X D (Bin/TriasProofs4.v), the effect of the padding on the dictionary: every byte of X = P+ is still in D,
+     every other cell of D is a zero on a 256-byte page that X touches, and every occupied address of D that is not a
+     multiple of 256 has an occupied predecessor (so every segment starts on a page boundary). *)
 From Coq Require Import NArith List Bool.
+From Trion Require Import Uf2.ReaderSpec.
 From Trion Require Import Mem.MapModel Mem.DictSpec Mem.MapProofs Uf2.CrcSpec.
-From Trion Require Import Bin.TriasModel Bin.ImageSpec Bin.TriasProofs Bin.TriasProofs2 Bin.TriasProofs3.
+From Trion Require Import Bin.TriasModel Bin.ImageSpec Bin.TriasProofs Bin.TriasProofs2 Bin.TriasProofs3 Bin.TriasProofs4
+  Bin.TriasEmit Bin.TriasProofs5 Bin.TriasProofs6.
 Import ListNotations.
 Open Scope N_scope.
 
 (* 0x10000000 occupied, nothing in 0x100000FC..0x100000FF: the step succeeds and the four bytes put at 0x100000FC are the
    little-endian bytes of the bit-serial CRC-32/MPEG-2 (CrcSpec, via C17) of P[0x10000000 .. +252) with gaps read as 0;
    the resulting map is well formed and denotes exactly the oracle's P+ *)
-Theorem C18_checksum : forall dbg m, Rep m -> Bytes m -> IterRange_spec dbg -> Put_spec dbg ->
+Theorem C18_checksum : forall dbg m, Rep m -> Bytes m ->
   d_get (abs m) FLASH_BASE <> None -> no_conflict (abs m) ->
   exists m', checksum_step dbg m = Go m' /\ Rep m' /\
              abs m' = d_write (abs m) FLASH_CRC (TriasModel.le32 (spec_crc (boot_bytes (abs m)))) /\
              abs m' = P_plus (abs m).
-Proof. exact checksum_ok. Qed.
+Proof. exact checksum_ok'. Qed.
 
 (* the oracle's refusal condition (0x10000000 occupied and a byte in 0x100000FC..0x100000FF) => `post` refuses with
    "Checksum would overwrite existing data" *)
-Theorem C18_checksum_refused : forall dbg m, Rep m -> IterRange_spec dbg -> must_refuse (abs m) = true ->
+Theorem C18_checksum_refused : forall dbg m, Rep m -> must_refuse (abs m) = true ->
   post dbg m = Refused R_checksum_overlap.
-Proof. exact post_refused. Qed.
+Proof. exact post_refused'. Qed.
 
 (* nothing at 0x10000000: no checksum is inserted, the map is unchanged and P+ = P *)
 Theorem C18_checksum_absent : forall dbg m, Rep m -> d_get (abs m) FLASH_BASE = None ->
@@ -64,29 +63,81 @@ Proof. exact checksum_absent. Qed.
 (* the checksum step is total, in both build profiles: it either hands a well-formed map denoting P+ to the padding loop
    (exactly when the oracle does not ask for a refusal) or refuses (exactly when it does); temp[first..=last],
    copy_from_slice, the u32 subtractions, find, put are all in range *)
-Theorem C18_checksum_total : forall dbg m, Rep m -> Bytes m -> IterRange_spec dbg -> Put_spec dbg ->
+Theorem C18_checksum_total : forall dbg m, Rep m -> Bytes m ->
   (exists m', checksum_step dbg m = Go m' /\ Rep m' /\ abs m' = P_plus (abs m) /\ must_refuse (abs m) = false)
   \/ (checksum_step dbg m = RStop R_checksum_overlap /\ must_refuse (abs m) = true).
-Proof. exact checksum_step_total. Qed.
+Proof. exact checksum_step_total'. Qed.
 
-(* PARTIAL (fuel not shown sufficient): checksum + padding end in a refusal, in OutOfFuel, or in a well-formed map for
-   the UF2 writer - every assert_eq!(put(..), Ok(n)) of the padding loop holds, &BLANK_PAGE[..n] has n <= 256, prev + 1,
-   first - off, first - prev - 1 do not wrap; both build profiles *)
-Theorem C18_pad_keeps_rep_partial : forall dbg m, Rep m -> Bytes m -> IterRange_spec dbg -> Put_spec dbg ->
-  (exists r, padded dbg m = RStop r) \/ padded dbg m = FStop \/ exists m2, padded dbg m = Go m2 /\ Rep m2.
-Proof. exact padded_safe. Qed.
+(* checksum + padding, every case: an empty image and the oracle's refusal condition end in the corresponding
+   `return false`; otherwise the padding loop finishes within its fuel without a panic (every
+   assert_eq!(put(..), Ok(n)) holds, &BLANK_PAGE[..n] has n <= 256, prev + 1, first - off, first - prev - 1 do not wrap)
+   and hands the UF2 writer a well-formed map whose dictionary is P+ plus zeros on touched pages only (PFin) and whose
+   segments all start on a page boundary *)
+Theorem C18_pad : forall dbg m, Rep m -> Bytes m ->
+  (padded dbg m = RStop R_empty /\ abs m = [])
+  \/ (padded dbg m = RStop R_checksum_overlap /\ must_refuse (abs m) = true)
+  \/ (abs m <> [] /\ must_refuse (abs m) = false /\
+      exists m2, padded dbg m = Go m2 /\ Rep m2 /\ PFin (P_plus (abs m)) (abs m2)
+                 /\ (forall s, In s m2 -> sfirst s mod 256 = 0)).
+Proof. exact padded_total'. Qed.
 
-(* PARTIAL (see header): `post` never returns a Panic outcome *)
-Theorem C18_no_panic_partial : forall dbg m, Rep m -> Bytes m -> IterRange_spec dbg -> Put_spec dbg ->
-  (forall m2, padded dbg m = Go m2 -> small m2) ->
-  forall s, post dbg m <> PPanic s.
-Proof. exact post_no_panic. Qed.
+(* the UF2 emission of a well-formed map with page-aligned segments and fewer than 2^32 bytes + regions: no panic
+   (new_vec(..).unwrap(), every write_all, drop), no write_all is refused, and the independent reader reads the file
+   as blocks with payload 256 at 256-aligned addresses below 2^32, family-id flag + RP2040 family id and no other flag,
+   numbered 0..n-1 with total n, no two on the same page; a loader stores exactly each segment's bytes at their
+   addresses followed by zeros up to the end of the segment's last page (seg_items) *)
+Theorem C18_emit : forall dbg m, Rep m -> small m -> (forall s, In s m -> sfirst s mod 256 = 0) ->
+  exists file rs, emit_step dbg m = Go file /\ read_uf2 file = Some rs
+    /\ blocks_shaped rs = true /\ numbered rs = true /\ pages_distinct rs = true
+    /\ file_items rs = flat_map seg_items m.
+Proof. exact emit_ok. Qed.
 
-(* PARTIAL no-panic: the UF2 emission of a well-formed map with fewer than 2^32 bytes + regions (`small`: the condition
-   under which C16 shows that the block counter cannot overflow) never panics: new_vec(..).unwrap(), every write_all,
-   drop; in both build profiles - C16_no_panic applied to the calls `post` makes *)
-Theorem C18_emit_no_panic_partial : forall dbg m, Rep m -> small m -> forall s, emit_step dbg m <> PStop s.
-Proof. exact emit_no_panic_small. Qed.
+(* a program that places nothing in page 0 has a padded map within C16's size condition *)
+Theorem C18_small : forall dbg m, Rep m -> Bytes m -> page0_free (abs m) -> padded_small dbg m.
+Proof. exact page0_small. Qed.
+
+(* every outcome of `post` (no Panic, no OutOfFuel): an empty image gives no file; the oracle's refusal condition gives
+   the refusal; otherwise a file is produced and it satisfies every clause of the oracle *)
+Theorem C18_outcomes : forall dbg m, Rep m -> Bytes m -> padded_small dbg m ->
+  (post dbg m = Refused R_empty /\ abs m = [])
+  \/ (post dbg m = Refused R_checksum_overlap /\ must_refuse (abs m) = true)
+  \/ (abs m <> [] /\ must_refuse (abs m) = false /\
+      exists file rs, post dbg m = POk file /\ read_uf2 file = Some rs
+        /\ blocks_shaped rs = true /\ numbered rs = true /\ pages_distinct rs = true
+        /\ ImageSpec.checksum_ok (abs m) (file_items rs) = true
+        /\ has_all_bytes (P_plus (abs m)) (file_items rs) = true
+        /\ padding_zero (P_plus (abs m)) (file_items rs) = true
+        /\ inside_pages (P_plus (abs m)) (file_items rs) = true).
+Proof. exact post_total. Qed.
+
+(* THE PROPERTY: a non-empty image that need not be refused yields a file that decodes (ReaderSpec) to an image
+   containing every byte of P+ at its address, zero in every other byte it contains, nothing outside the 256-byte pages
+   P+ touches, the checksum word = CRC of the 252 bytes before it; every block payload 256 at a 256-aligned address,
+   no two blocks on the same page, numbering and family id (image_ok = all clauses of the oracle) *)
+Theorem C18_image : forall dbg m, Rep m -> Bytes m -> page0_free (abs m) -> abs m <> [] ->
+  must_refuse (abs m) = false -> exists file, post dbg m = POk file /\ image_ok (abs m) file = true.
+Proof. exact post_image. Qed.
+
+Theorem C18_image_small : forall dbg m, Rep m -> Bytes m -> padded_small dbg m -> abs m <> [] ->
+  must_refuse (abs m) = false -> exists file, post dbg m = POk file /\ image_ok (abs m) file = true.
+Proof. exact post_image_small. Qed.
+
+(* the block clauses on their own *)
+Theorem C18_blocks : forall dbg m, Rep m -> Bytes m -> page0_free (abs m) -> abs m <> [] ->
+  must_refuse (abs m) = false ->
+  exists file rs, post dbg m = POk file /\ read_uf2 file = Some rs
+    /\ blocks_shaped rs = true /\ numbered rs = true /\ pages_distinct rs = true.
+Proof. exact post_blocks. Qed.
+
+(* `post` never panics and never runs out of fuel (checksum step: find, the iter_range loop with the slice copy, CRC,
+   put; padding loop; emission: new_vec(..).unwrap(), write_all, drop) *)
+Theorem C18_no_panic : forall dbg m, Rep m -> Bytes m -> page0_free (abs m) ->
+  (forall s, post dbg m <> PPanic s) /\ post dbg m <> POutOfFuel.
+Proof. exact post_no_panic_page0. Qed.
+
+Theorem C18_no_panic_small : forall dbg m, Rep m -> Bytes m -> padded_small dbg m ->
+  (forall s, post dbg m <> PPanic s) /\ post dbg m <> POutOfFuel.
+Proof. exact post_no_panic_small. Qed.
 
 (* model of main: an output-file operation happens only after assemble returned true and an output path was given; then
    the operations are open(create), write_all(file), set_len(|file|), in this order, and nothing panicked *)
@@ -105,8 +156,8 @@ Proof. exact main_failure_writes_nothing. Qed.
 
 (* non-vacuity, by evaluation of model and oracle: two regions on one page; three regions far apart (one ending at
    0xFFFFFFFF), in the overflow-checking profile; a boot sector with a gap below 0xFC - each yields a file the oracle
-   accepts; a boot sector with a byte at 0x100000FE is refused; the empty image gives no file; and the segments handed
-   to the UF2 writer for the far-apart layout start on page boundaries *)
+   accepts; a boot sector with a byte at 0x100000FE is refused; the empty image gives no file; the segments handed
+   to the UF2 writer for the far-apart layout start on page boundaries; the size condition holds on the examples *)
 Definition ex_same : mmap := [(0x20000010, 0x20000013, [1;2;3;4]); (0x20000020, 0x20000021, [5;6])].
 Definition ex_far : mmap := [(0x10, 0x11, [1;2]); (0x2F0, 0x30F, repeat 7 32); (0xFFFFFFF0, 0xFFFFFFFF, repeat 9 16)].
 Definition ex_boot : mmap := [(0x10000000, 0x10000003, [0x44;0x33;0x22;0x11]); (0x10000010, 0x10000010, [7])].
@@ -120,5 +171,8 @@ Theorem C18_examples :
   /\ post false [] = Refused R_empty
   /\ match padded false ex_far with Go m => map (fun s => (sfirst s, slast s)) m | _ => [] end
      = [(0, 0x11); (0x200, 0x30F); (0xFFFFFF00, 0xFFFFFFFF)]
-  /\ fst (main_model false [[0x74]; [0x61]; [0x6F]] (Some (PipeOk ex_conflict))) = [].
+  /\ fst (main_model false [[0x74]; [0x61]; [0x6F]] (Some (PipeOk ex_conflict))) = []
+  (* the size condition: ex_same has nothing in page 0; ex_far has (0x10) and its padded map is small all the same *)
+  /\ forallb (fun c => 256 <=? fst c) (abs ex_same) = true
+  /\ match padded true ex_far with Go m2 => len (abs m2) + len m2 <=? 0xFFFFFFFF | _ => false end = true.
 Proof. vm_compute. repeat split; reflexivity. Qed.
